@@ -977,6 +977,25 @@ pub fn same_last_patch_scenario(name: &str, depth: usize, extra: &[Op]) -> Scena
     }
 }
 
+/// Plain-string elements: replica 0 removes the whole array, replica 1 concurrently removes one element and appends
+/// another in two commits (its versions win by history length); then the exchange.
+pub fn string_array_deleted_scenario(name: &str, depth: usize, extra: &[Op]) -> Scenario {
+    let docs = vec![json!({"l♭":["x","y","z"]}), json!({"s":"a"}), json!({"l♭":["y","z"]}), json!({"l♭":["y","z","w"]}), json!({"l♭":["z","w"], "s":"b"})];
+    let mut alphabet = vec![Op::Sync(0, 1), Op::Sync(1, 0), Op::Commit(0, 0), Op::Commit(1, 0), Op::Upd(1, 4), Op::Reopen(0), Op::Snapshot(1), Op::Resolve(1, 0, 0), Op::Resolve(1, 0, 1)];
+    alphabet.extend_from_slice(extra);
+    Scenario {
+        name: name.to_string(),
+        nrep: 2,
+        menu: menu(docs),
+        prologue: vec![Op::Upd(0, 0), Op::Commit(0, 0), Op::Sync(1, 0), Op::Upd(0, 1), Op::Commit(0, 0), Op::Upd(1, 2), Op::Commit(1, 0), Op::Upd(1, 3), Op::Commit(1, 0)],
+        alphabet,
+        key_opts: KeyOpts::default(),
+        max_depth: depth,
+        track: true,
+        order: None,
+    }
+}
+
 pub fn combo_scenarios(thorough: bool) -> Vec<Scenario> {
     let d = |q: usize, t: usize| if thorough { t } else { q };
     vec![
@@ -995,6 +1014,7 @@ pub fn combo_scenarios(thorough: bool) -> Vec<Scenario> {
         shared_storage_scenario("combo-two-instances-on-one-storage", d(4, 5), &[]),
         travel_meld_scenario("combo-meld-with-a-travelled-replica", d(3, 4), &[]),
         same_last_patch_scenario("combo-branches-with-identical-last-patch", d(3, 4), &[]),
+        string_array_deleted_scenario("combo-string-array-removed-vs-edited-twice", d(3, 4), &[]),
         first_commit_chains_scenario("combo-first-commit-with-several-revisions", d(5, 6), &[]),
         {
             // the same under a reversed hash-iteration order (the order of the change records of one object)
